@@ -27,7 +27,7 @@ Section Wrappers.
   Variable toInt : num -> Z.                         (* int(LNumber), as L.CheckInt *)
   Variable ofInt : Z -> num.                         (* LNumber(int) *)
   Variables mul div : num -> num -> num.             (* float64 * and / *)
-  Variables c180 cpi : num.                          (* 180 and math.Pi *)
+  Variable crpd : num.                               (* radiansPerDegree = math.Pi / 180 *)
   Variable is_inf : num -> bool.                     (* math.IsInf(x, 0) *)
   Variable zero_like : num -> num.                   (* math.Copysign(0, x) *)
   Variable draw : Z -> option Z.                     (* rand.Intn(k): None = panic *)
@@ -39,8 +39,8 @@ Section Wrappers.
   Definition mathCeil := arg1 Ceil.
   Definition mathAbs := arg1 Abs.
   Definition mathSqrt := arg1 Sqrt.
-  Definition mathDeg := arg1 (fun x => div (mul x c180) cpi).
-  Definition mathRad := arg1 (fun x => div (mul x cpi) c180).
+  Definition mathDeg := arg1 (fun x => div x crpd).
+  Definition mathRad := arg1 (fun x => mul x crpd).
 
   Definition mathFmod (args : list num) : mres num :=
     match args with x :: y :: _ => MOk [Mod x y] | _ => MErr end.
@@ -228,8 +228,7 @@ Definition ref_sqrt (x : num) : num := of_float (PrimFloat.sqrt (to_float x)).
 Definition ref_ldexp (x : num) (e : Z) : num := of_float (Z.ldexp (to_float x) e).
 Definition ref_mul (x y : num) : num := of_float (PrimFloat.mul (to_float x) (to_float y)).
 Definition ref_div (x y : num) : num := of_float (PrimFloat.div (to_float x) (to_float y)).
-Definition num_180 : num := NFin false 45 2.
-Definition num_pi : num := NFin false 884279719003555 (-48).   (* math.Pi as a float64 *)
+Definition num_rpd : num := NFin false 5030569068109113 (-58).   (* float64(pi/180) = lmathlib.c's RADIANS_PER_DEGREE *)
 
 (* ---------- the wrappers instantiated for running ---------- *)
 Inductive mop := MFloor | MCeil | MAbs | MSqrt | MDeg | MRad | MFmod | MModf | MFrexp | MLdexp | MMax | MMin.
@@ -240,8 +239,8 @@ Definition run_math (op : mop) (args : list num) : mres num :=
   | MCeil => mathCeil num ref_ceil args
   | MAbs => mathAbs num ref_abs args
   | MSqrt => mathSqrt num ref_sqrt args
-  | MDeg => mathDeg num ref_mul ref_div num_180 num_pi args
-  | MRad => mathRad num ref_mul ref_div num_180 num_pi args
+  | MDeg => mathDeg num ref_div num_rpd args
+  | MRad => mathRad num ref_mul num_rpd args
   | MFmod => mathFmod num ref_fmod args
   | MModf => mathModf num ref_modf is_inf_num zero_like_num args
   | MFrexp => mathFrexp num ref_frexp of_Z args
